@@ -695,6 +695,11 @@ def f_un(name, a):
             return float("inf")
         except ValueError:
             return float("nan")
+    if name == "cos":
+        # normal form cos(t) = sin(t + pi/2): lowerings that emit Sin(x + c) build the same term up to
+        # the rounding of c, which the Lipschitz instance axioms of sin absorb
+        USED_UFS.add("sin")
+        return _uf("sin")(a + z3.RealVal(Fraction(math.pi / 2)))
     USED_UFS.add(name)
     return _uf(name)(a)
 
